@@ -55,6 +55,7 @@ ASSUMPTIONS = [
 KEY_RACE = "early-exit:counterexample-during-stuck-confirmation-gives-ERROR"
 KEY_RAISE = "precedence:stuck-confirmation-exception-over-counterexample"
 KEY_TIMEOUT = "precedence:TIMEOUT-reported-over-stuck-or-revert-all-ERROR"
+KEY_EMPTY_CORE = "cache-solver:unsat-reply-with-empty-core-answers-later-queries-unsat"
 
 FN = "check_t"
 KINDS = ["success", "revert", "panic", "panicOther", "fail", "stuck"]
@@ -178,7 +179,7 @@ def proc_of(rep, asserts, cache, text):
     core = []
     if k in ("unsat", "unsat_rc") and cache:
         c = rep.get("core", "all")
-        core = list(asserts) if c == "all" else ([] if c == "none" else list(asserts[:c]))
+        core = list(asserts) if c == "all" else ([] if c in ("none", "empty") else list(asserts[:c]))
     return f"E/{rc}/{enc_core(core)}/{enc_text(text)}"
 
 
@@ -238,7 +239,7 @@ def cores_lie(case):
             continue
         a = asserts_of(K, j, ref)
         c = r.get("core", "all")
-        core = a if c == "all" else ([] if c == "none" else a[:c])
+        core = a if c == "all" else ([] if c in ("none", "empty") else a[:c])
         if not core:
             continue
         for j2 in pots:
@@ -454,7 +455,7 @@ def rand_reply(rng, cls, lits, cache, nasserts):
     if kind == "sat":
         rep["format"] = rng.choice(["hex", "bin", "dec"])
     if kind in ("unsat", "unsat_rc"):
-        rep["core"] = rng.choice(["all", "all", "none"] + list(range(1, nasserts + 1))) if cache else "all"
+        rep["core"] = rng.choice(["all", "all", "none", "empty", "empty"] + list(range(1, nasserts + 1))) if cache else rng.choice(["all", "empty"])
         if kind == "unsat" and rng.random() < 0.3:
             rep["error_line"] = True
     return rep
@@ -548,6 +549,10 @@ def classify_violation(case, impl, spec):
                 and (any(o in ("kc", "kt", "kf") for o in oc) or "s" not in oc))   # = Lean `Deviates`
     if impl == 2 and spec == "error" and deviates:
         return KEY_TIMEOUT
+    empty_core = case["cache"] and any(r[w]["kind"] in ("unsat", "unsat_rc") and r[w].get("core") in ("empty", "none")
+                                       for r in case["replies"].values() for w in ("first", "second") if r.get(w))
+    if empty_core and spec == "fail" and impl != 1 and "vc" in oc:
+        return KEY_EMPTY_CORE + f":{EXIT_NAME.get(impl, impl)}-instead-of-FAIL"
     return (f"verdict:{EXIT_NAME.get(impl, impl)}-where-property-says-{spec.upper()}"
             f"{':early-exit' if case['early'] else ''}{':race' if case['sched']['type'] == 'race' else ''}")
 
@@ -992,18 +997,50 @@ def all_K(maxlen):
         yield from itertools.product(KINDS, repeat=m)
 
 
+def gen_empty_core_case(rng, lits):
+    """--cache-solver, one solver thread: an unsat reply whose core is empty / absent, and a valid counterexample on another
+    path, in both submission orders (the unsat-core cache must not answer the second query)"""
+    while True:
+        m = rng.choice([3, 3, 4])
+        K = [rng.choice(KINDS) for _ in range(m)]
+        pots = [j for j, k in enumerate(K) if CLASS[k] == "potential"]
+        if len(pots) >= 2:
+            break
+    case = gen_case(rng, K, lits)
+    a, b = rng.sample(pots, 2)
+    case["cache"], case["sched"], case["refinable"] = True, {"type": "seq"}, case["refinable"]
+    case["replies"][str(a)] = {"first": {"kind": rng.choice(["unsat", "unsat_rc"]), "core": rng.choice(["empty", "empty", "none"]),
+                                         "error_line": rng.random() < 0.3}}
+    case["replies"][str(b)] = {"first": {"kind": rng.choice(["sat", "sat_rc"])}}
+    stucks = [j for j, k in enumerate(K) if CLASS[k] == "stuck"]
+    if any(j > b for j in stucks):
+        case["early"] = False   # would race with a later stuck confirmation (covered by the race schedule)
+    for rep in case["replies"].values():
+        for w in ("first", "second"):
+            if rep.get(w) and rep[w]["kind"] == "timeout":
+                rep[w] = {"kind": "unknown"}
+    return case
+
+
 def correspond(ctx):
     rng = ctx.rng
     lits = harvest_literals()
     ctx.note(f"harvested literals (±1): {lits}")
+    failures = []   # model/implementation mismatches: every stage still runs (a concrete violation may be in a later one)
+
+    def stage(name, fn):
+        try:
+            fn()
+        except RuntimeError as e:
+            failures.append(f"[{name}] {e}")
 
     # the harness' witnesses are the scenarios of the Lean `_cex` theorems
     same = ctx.lean("Verdict").ask(witness_same_lines())
     if any(s != "ok true" for s in same):
         raise RuntimeError(f"witness scenarios differ from Model.VerdictWitness: {same}")
 
-    unit_from_result(ctx, lits)
-    unit_get_solver_output(ctx)
+    stage("from_result", lambda: unit_from_result(ctx, lits))
+    stage("get_solver_output", lambda: unit_get_solver_output(ctx))
 
     pend = Pending()
     # 0. corpus + witnesses of the `_cex` theorems
@@ -1013,6 +1050,10 @@ def correspond(ctx):
     for name, case in WITNESS.items():
         run_and_queue(ctx, pend, case, f"witness:{name}", retries=3)
         ctx.count("witness")
+    # 0b. empty / absent unsat core followed (and preceded) by a valid counterexample, cache on, one solver thread
+    for _ in range(ctx.scale(8, 80)):
+        run_and_queue(ctx, pend, gen_empty_core_case(rng, lits), "empty-core")
+        ctx.count("empty-core-then-sat")
 
     # 1. systematic: every assignment of kinds to <= 2 paths (quick) / <= 3 (thorough), one random reply/schedule each
     t_budget = ctx.scale(75, 900)
@@ -1036,6 +1077,7 @@ def correspond(ctx):
         K = [rng.choice(KINDS) for _ in range(max(1, m))]
         run_and_queue(ctx, pend, gen_case(rng, K, lits), "random")
         n += 1
+
     # 3. a valid counterexample arriving during a later stuck confirmation under --early-exit
     for _ in range(ctx.scale(6, 60)):
         m = rng.choice([2, 3, maxlen])
@@ -1044,10 +1086,12 @@ def correspond(ctx):
             if any(CLASS[k] == "potential" and any(CLASS[k2] == "stuck" for k2 in K[j + 1:]) for j, k in enumerate(K)):
                 break
         run_and_queue(ctx, pend, gen_case(rng, K, lits, force_race=True), "race", retries=2)
-    judge(ctx, pend)
+    stage("end-to-end", lambda: judge(ctx, pend))
 
     # 4. whole process
-    main_level(ctx, lits)
+    stage("main", lambda: main_level(ctx, lits))
+    if failures:
+        raise RuntimeError(f"{len(failures)} stage(s) with model/implementation mismatches: " + " || ".join(f[:1500] for f in failures))
 
 
 def replay(ctx, data) -> bool:
